@@ -19,7 +19,7 @@ import (
 )
 
 func main() {
-	mode := flag.String("mode", "scan", "scan|runes|cli|gen")
+	mode := flag.String("mode", "scan", "scan|runes|cli|directive|gen")
 	tier := flag.String("tier", "quick", "quick|thorough")
 	outDir := flag.String("out", "", "output directory")
 	flag.Parse()
@@ -44,6 +44,8 @@ func main() {
 		genRunes(w, *tier)
 	case "cli":
 		genCLI(w, *tier)
+	case "directive":
+		genDirective(w, *tier)
 	default:
 		fmt.Fprintln(os.Stderr, "unknown mode")
 		os.Exit(2)
